@@ -67,3 +67,34 @@ Example C01_example_runs :
   inner (R:=GRing) (ran A) (fwd A (fun i => ((Z.of_nat i, 1)%Z : G))) (fun i => ((1, Z.of_nat i)%Z : G))
   = inner (R:=GRing) (dom A) (fun i => ((Z.of_nat i, 1)%Z : G)) (adj A (fun i => ((1, Z.of_nat i)%Z : G))).
 Proof. vm_compute. reflexivity. Qed.
+
+(* ---- WaveletOp (ptwt wavedec / waverec, mode 'zero'): filter-bank model, Model/Wavelet.v ---- *)
+From MrVerif Require Import Model.Wavelet Proofs.WaveletProofs.
+
+(* every number of levels, every filter length, every signal length (odd intermediate lengths included), every ring: when the
+   reconstruction filters are the reversed conjugated decomposition filters (orthogonal wavelets: haar, db, sym, coif),
+   waverec is the adjoint of wavedec *)
+Theorem C01_wavelet_multilevel : forall (R : StarRing) level L n (flo fhi glo ghi : nat -> R),
+  filters_match L flo glo -> filters_match L fhi ghi -> adjoint_pair (wavedec_op level L n flo fhi glo ghi).
+Proof. exact wavedec_adjoint. Qed.
+Print Assumptions C01_wavelet_multilevel.
+
+(* ... and only then: for signals of length >= 2 one level is an adjoint pair iff both filter pairs match. This decides
+   known finding KF-01 for every wavelet from its filter bank alone: bior/rbio (other than 1.1) have rec <> reversed dec. *)
+Theorem C01_wavelet_adjoint_iff : forall (R : StarRing) L n (flo fhi glo ghi : nat -> R), (2 <= n)%nat ->
+  (adjoint_pair (dwt1 L n flo fhi glo ghi) <-> filters_match L flo glo /\ filters_match L fhi ghi).
+Proof. exact dwt1_adjoint_iff. Qed.
+Print Assumptions C01_wavelet_adjoint_iff.
+
+(* the boolean test evaluated by the harness on PyWavelets' filter banks is the hypothesis of the two theorems *)
+Theorem C01_wavelet_filter_test_sound : forall dec rc, filters_match_b dec rc = true ->
+  filters_match (R:=ZRing) (length dec) (zvec (rev dec)) (zvec rc).
+Proof. exact filters_match_b_sound. Qed.
+Print Assumptions C01_wavelet_filter_test_sound.
+
+(* non-vacuity: two Haar levels (integer-scaled filters) on a signal of length 6 (inner length 3 is odd) *)
+Example C01_wavelet_example :
+  let A := wavedec_Z 2 2 6 [1;1] [-1;1] [1;1] [1;-1] in
+  filters_match_b [1;1] [1;1] && filters_match_b [-1;1] [1;-1] = true /\
+  dense_adj A = map (fun i => map (fun col => nth i col 0) (dense_fwd A)) (seq 0 (ran A)) /\ ran A = 7%nat.
+Proof. vm_compute. repeat split; reflexivity. Qed.
